@@ -29,6 +29,28 @@ func c09Case(msg, dst []byte) (key, detail string) {
 		return "HashToScalar/input-modified", desc
 	}
 
+	// message and DST as adjacent windows of one caller buffer: the message's spare capacity is the DST
+	if len(msg)+len(dst) <= 2048 {
+		frame := make([]byte, len(msg)+len(dst), len(msg)+len(dst)+8)
+		copy(frame, msg)
+		copy(frame[len(msg):], dst)
+		snap := append([]byte{}, frame...)
+
+		var s3 *secp256k1.Scalar
+
+		if p := catchStr(func() { s3 = secp256k1.HashToScalar(frame[:len(msg)], frame[len(msg):]) }); p != "" {
+			return "HashToScalar/panic", desc + " (adjacent windows): " + p
+		}
+
+		if ok, _ := scalarIs(s3, ref.HashToScalar(msg, dst)); !ok {
+			return "HashToScalar/differs-from-RFC9380/msg-and-DST-adjacent-in-one-buffer", desc
+		}
+
+		if !bytes.Equal(frame, snap) {
+			return "HashToScalar/input-modified/msg-and-DST-adjacent-in-one-buffer", desc
+		}
+	}
+
 	return "", ""
 }
 
